@@ -20,7 +20,8 @@ import (
 
 // Outcome of one scripted callback.
 // Err: 0 ok; 1 sentinel error; 2 wrapped sentinel; 3 custom pointer type; 4 custom value
-// type; 5 (fallback only) return the very error that was passed in.
+// type; 5 (fallback only) return the very error that was passed in; 6 (Result-style exec
+// functions only) return an error Result together with a nil error.
 type Outcome struct {
 	Err int `json:"err,omitempty"`
 	Pay int `json:"pay,omitempty"` // payload kind, see mkPayload
@@ -164,8 +165,18 @@ func (w *WF) outcome(leaf, visit int, phase string, attempt int) Outcome {
 			o.Err = in.Err
 		}
 	}
+	if o.Err == 6 && !(phase == "exec" && l.Kind == KFunc && l.Style&SExecAny == 0) {
+		o.Err = 0 // only a Result-style exec function can return an error Result with a nil error
+	}
 	return o
 }
+
+// execOK: the attempt does not count as failed (a value, or an error Result with nil error).
+func execOK(o Outcome) bool { return o.Err == 0 || o.Err == 6 }
+
+// resErrMarker is what the scripted exec body returns to ask the Result-style wrapper for
+// (flyt.NewErrorResult(err), nil).
+type resErrMarker struct{ err error }
 
 // ---------------------------------------------------------------------------------
 // payloads and errors
@@ -278,6 +289,9 @@ type Ev struct {
 	In2     any               // post: the exec result received
 	InErr   error             // fb: the error received
 	InIsErr bool              // Result-style functions: the argument Result had IsError()
+	In2Err  error             // Result-style post: Error() of the exec Result argument
+	In2Wrap bool              // post: the exec argument's value is itself a flyt.Result (wrapped twice)
+	RetResErr error           // exec returned an error Result carrying this error (nil Go error)
 	Ret     any
 	RetErr  error
 	RetAct  string
@@ -417,9 +431,17 @@ func (x *wfExec) exec(ctx context.Context, leaf int, in any, inIsErr bool) (any,
 	o := x.sc.outcome(leaf, visit, "exec", a)
 	var ret any
 	var err error
-	if o.Err != 0 {
+	switch {
+	case o.Err == 6:
+		re := mkErr(1, x.tag(leaf, visit, "reserr", a))
+		x.mu.Lock()
+		x.trace[seq].RetResErr = re
+		x.mu.Unlock()
+		x.end(seq, nil, nil, "")
+		return resErrMarker{re}, nil
+	case o.Err != 0:
 		err = mkErr(o.Err, x.tag(leaf, visit, "exec", a))
-	} else {
+	default:
 		ret = mkPayload(o.Pay, x.tag(leaf, visit, "exec", a))
 	}
 	x.end(seq, ret, err, "")
@@ -446,12 +468,19 @@ func (x *wfExec) fb(leaf int, in any, inErr error) (any, error) {
 	return ret, err
 }
 
-func (x *wfExec) post(ctx context.Context, leaf int, store *flyt.SharedStore, in, in2 any, in2IsErr bool) (flyt.Action, error) {
+func (x *wfExec) post(ctx context.Context, leaf int, store *flyt.SharedStore, in, in2 any, in2IsErr bool, in2Err ...error) (flyt.Action, error) {
 	x.mu.Lock()
 	visit := x.cur(leaf)
 	fuel := x.fuel
 	x.mu.Unlock()
-	seq := x.begin(Ev{Leaf: leaf, Visit: visit, Phase: "post", Store: store, In: in, In2: in2, InIsErr: in2IsErr, Ctx: ctx})
+	ev := Ev{Leaf: leaf, Visit: visit, Phase: "post", Store: store, In: in, In2: in2, InIsErr: in2IsErr, Ctx: ctx}
+	if len(in2Err) > 0 {
+		ev.In2Err = in2Err[0]
+	}
+	if _, wrapped := in2.(flyt.Result); wrapped {
+		ev.In2Wrap = true
+	}
+	seq := x.begin(ev)
 	if store != nil {
 		var path []int
 		if v, ok := store.Get("path"); ok {
@@ -568,11 +597,14 @@ func (x *wfExec) buildFuncLeaf(id int, l *LeafSpec, n int, w time.Duration) flyt
 		if err != nil {
 			return flyt.Result{}, err
 		}
+		if m, isMarker := v.(resErrMarker); isMarker {
+			return flyt.NewErrorResult(m.err), nil
+		}
 		return flyt.NewResult(v), nil
 	}
 	execA := func(ctx context.Context, p any) (any, error) { return x.exec(ctx, id, p, false) }
 	postR := func(ctx context.Context, s *flyt.SharedStore, p, e flyt.Result) (flyt.Action, error) {
-		return x.post(ctx, id, s, p.Value(), e.Value(), e.IsError())
+		return x.post(ctx, id, s, p.Value(), e.Value(), e.IsError(), e.Error())
 	}
 	postA := func(ctx context.Context, s *flyt.SharedStore, p, e any) (flyt.Action, error) {
 		return x.post(ctx, id, s, p, e, false)
@@ -765,7 +797,7 @@ func (m *wfModel) leaf(i int, l *LeafSpec) (string, bool) {
 	last := -1
 	for a := 0; a < n; a++ {
 		last = m.emit(MEv{i, v, "exec", a})
-		if m.sc.outcome(i, v, "exec", a).Err == 0 {
+		if execOK(m.sc.outcome(i, v, "exec", a)) {
 			success = true
 			break
 		}
